@@ -123,7 +123,12 @@ def parseObs (line : String) : Obs :=
   | "dec" :: p :: ts => .dec p (parseDecRuns ts)
   | "tra" :: p :: ts => .tra p (parseTraRuns ts)
   | ["dt", ret, body] => .dt ((ret.drop 4).toString) (if body == "-" then [] else body.splitOn "|")
-  | ["dta", body] => .dta (if body == "-" then [] else body.splitOn "|")
+  | ["dta", body] => .dta (if body == "-" then [] else body.splitOn "|") none
+  | ["dta", body, inner] =>
+    .dta (if body == "-" then [] else body.splitOn "|")
+      (match ((inner.drop 6).toString).splitOn ":" with
+       | [a, l, d] => some (intD a, intD l, intD d)
+       | _ => none)
   | ["ce", t] => .ce t
   | ["r", "load", _, "!fail"] => .loadFail
   | "crash" :: _ => .crash line
@@ -194,6 +199,7 @@ structure MState where
   machine : Option (Machine × String × String) := none   -- machine, caught, err
   counts : List (Int × Int) := []                        -- num_arg / num_local per control stack element
   nvs : List (String × List NEv) := []                   -- node visits per program
+  room : Int := 0                                        -- sp - fp at the moment of the error
   out : List String := []
 
 def parseCsEntry (t : String) : Option CsEntry :=
@@ -252,7 +258,8 @@ def modelLine (st : MState) (line : String) : MState :=
     | none => { st with out := s!"dec {p} !notab" :: st.out }
   | "cs" :: ts =>
     { st with machine := some (parseCs ts), out := line :: st.out,
-              counts := ts.filterMap fun t => if t.contains '=' then none else parseCsCounts t }
+              counts := ts.filterMap fun t => if t.contains '=' then none else parseCsCounts t,
+              room := intD ((kv? ts "room").getD "0") }
   | "dt" :: _ =>
     match st.machine with
     | some (m, _, _) =>
@@ -262,8 +269,9 @@ def modelLine (st : MState) (line : String) : MState :=
   | "dta" :: _ =>
     match st.machine with
     | some (m, _, _) =>
-      let ls := dumpTraceArgs m st.counts                                -- MODEL dump_trace (ARGS | LOCALVARS)
-      { st with out := s!"dta {if ls.isEmpty then "-" else "|".intercalate ls}" :: st.out }
+      let ls := dumpTraceArgs m st.counts st.room                        -- MODEL dump_trace (ARGS | LOCALVARS)
+      let inner := (st.counts.getLast?).getD (-1, -1)
+      { st with out := s!"dta {if ls.isEmpty then "-" else "|".intercalate ls} inner={inner.1}:{inner.2}:{st.room}" :: st.out }
     | none => { st with out := "dta !nocs" :: st.out }
   | "ce" :: _ => { st with out := line :: st.out }
   | "eh" :: _ =>
